@@ -623,7 +623,7 @@ package engine
 //@   ensures[one-alternative] len(result.delayed) == 1 && result.delayed[0] == k && !result.repeat && result.recover == nil && result.err == nil
 
 //@ func (*Promise).child
-//@   property C03
+//@   property C03 C13
 //@   requires p != nil && len(p.delayed) > 0 && p.delayed[0] != nil
 //@   modifies heap
 //@   ghost-set polled 0
@@ -666,6 +666,7 @@ package engine
 //@       len(stack) >= 1 && stack[len(stack) - 1] == argof(found, 1) && len(argof(found, 1).delayed) == 0
 //@   at-call (*promiseStack).popUntil requires[cuts-to-parent] a1 == popped.cutParent && a1 != nil
 //@   at-call (*promiseStack).recover requires[exact-error] a1 == popped.err && len(popped.delayed) == 0
+//@   never-calls dynamic
 //@   bind cerr = context.Context.Err#1
 //@   loop 1 maintains[an-error-no-handler-accepted-ends-the-run] !(called(rerr) && rerr != nil)
 //@   ensures[true-has-no-error] ok ==> err == nil
@@ -1525,7 +1526,7 @@ package engine
 //@       (forall q procedureIndicator :: has(text.clauses, q) ==> backing(text.clauses[q].clauses) != backing(text.buf) || backing(text.buf) == nil)
 
 //@ func (*VM).Compile
-//@   property C20
+//@   property C13 C20
 //@   requires vm != nil
 //@   nosafety
 //@   bind cerr = (*VM).compile#1
@@ -1534,6 +1535,9 @@ package engine
 //@       forall q procedureIndicator :: has(vm.procedures, q) == old(has(vm.procedures, q)) && vm.procedures[q] == old(vm.procedures[q])
 //@   ensures[errors-of-the-text-are-reported] cerr != nil ==> result == cerr
 //@   ensures[a-separated-predicate-is-reported] cerr == nil && called(ferr) && ferr != nil ==> result == ferr
+//@   bind gok, gerr = (*Promise).Force#1
+//@   ensures[an-error-or-a-cancellation-of-an-initialization-goal-is-reported] called(gerr) && gerr != nil ==> result == gerr
+//@   loop 2 maintains[no-initialization-goal-is-passed-over-after-an-error-or-a-failure] called(gerr) && gerr == nil && gok
 
 //@ func WriteTerm
 //@   trusted
@@ -1967,3 +1971,11 @@ package engine
 //@   loop 1 invariant true
 //@   loop 2 invariant true
 //@   loop 1 maintains[every-group-of-solutions-becomes-an-alternative] called(grp)
+
+//@ func (*VM).directive
+//@   property C13 C20
+//@   nosafety
+//@   trusted-frame
+//@   checks only post
+//@   bind dok, derr = (*Promise).Force#1
+//@   ensures[an-error-or-a-cancellation-of-a-directive-is-reported] called(derr) && derr != nil ==> result == derr
